@@ -75,14 +75,14 @@ CHECKS = {
     ref="DESIGN.md section 4 C06"),
  'C13': dict(
     technique="exhaustive enumeration of the documented selector grammar on all small plate shapes and labelings against an independent resolver",
-    text="Every selector expression of the documented grammar on every plate R x C (R, C <= 3 quick / 4 thorough) under 3 labelings, tall plates for labels beyond 'Z', "
+    text="Every selector expression of the documented grammar on every plate R x C (R, C <= 3 quick / 4 thorough) under 4 labelings (incl. labels with blanks / differing only in case, judged as given), tall plates for labels beyond 'Z', "
          "and a reject family; wells, order, shape and size compared with a resolver written from the documentation (~0.38 M / 2 M selectors).",
     note="Don't-care forms (step <= 0, start after stop, bool indices, empty/duplicate lists) are executed but not judged. " + TRUST,
     ref="DESIGN.md section 4 C13, Appendix B"),
  'C14': dict(
     technique="exhaustive enumeration of the quantity/concentration string grammars against an independent parser, plus equivalence classes pushed through the API",
     text="All value x prefix x base quantity strings, all value x numerator x optional count x denominator concentration strings, M/m with every prefix, percent forms under "
-         "2-3 settings of default_weight_volume_units, ~150 malformed inputs, and equivalence classes through create_solution, dilute, create_solution_from, Container(), transfer, fill_to.",
+         "2-3 settings of default_weight_volume_units, ~150 malformed inputs (the quantity ones also through Unit.convert, Container(), transfer, fill_to, Plate()), every string preceded by its look-alike spellings, and equivalence classes through create_solution, dilute, create_solution_from, Container(), transfer, fill_to.",
     note="Parsed concentrations are compared at the documented internal precision; white-space variants and the documented-but-unimplemented 'p' prefix are don't-care. " + TRUST,
     ref="DESIGN.md section 4 C14"),
  'C01': dict(
